@@ -770,6 +770,10 @@ const N_USE: u64 = 64;
 const N_IMP: u64 = 1024;
 const SINGLE: u64 = (N_USE + N_USE + N_IMP) * 4;
 const TWO_LOC_USE: u64 = 4096 * 2;
+/// every subset triple over importer directory x lp1 x lp2 for @use (2^18), importer at root / in a sub-directory
+const THREE_LOC_USE: u64 = (1 << 18) * 2;
+/// every subset pair over importer directory x lp1 for @import (2^20), importer at root / in a sub-directory
+const TWO_LOC_IMP: u64 = (1 << 20) * 2;
 
 const PLAIN_FORMS: [(&str, Option<&str>); 12] = [
     ("\"x.css\"", Some("x.css")),
@@ -894,6 +898,50 @@ pub fn case_for(index: u64, tier: Tier, rng: &mut Rng) -> (Case, &'static str) {
             },
             "two_locations_use_exhaustive",
         );
+    }
+    if tier == Tier::Thorough {
+        i -= TWO_LOC_USE;
+        if i < THREE_LOC_USE + TWO_LOC_IMP {
+            let (kind, subdir, present, nlp, section) = if i < THREE_LOC_USE {
+                let subdir = i & 1 != 0;
+                let bits = i >> 1;
+                let mut present = subset(bits & 63, 6, Loc::Rel);
+                present.extend(subset((bits >> 6) & 63, 6, Loc::Lp1));
+                present.extend(subset(bits >> 12, 6, Loc::Lp2));
+                (LoadKind::Use, subdir, present, 2, "three_locations_use_exhaustive")
+            } else {
+                let k = i - THREE_LOC_USE;
+                let subdir = k & 1 != 0;
+                let bits = k >> 1;
+                let mut present = subset(bits & 1023, 10, Loc::Rel);
+                present.extend(subset(bits >> 10, 10, Loc::Lp1));
+                (LoadKind::Import, subdir, present, 1, "two_locations_import_exhaustive")
+            };
+            return (
+                Case {
+                    kind,
+                    subdir,
+                    url: "u".into(),
+                    present,
+                    nlp,
+                    plain: None,
+                    plain_file: None,
+                    chunk: Chunking::NONE,
+                    real_fs: false,
+                    dirnames: vec![],
+                    deep: false,
+                    present_dirs: vec![],
+                    plain_nested: false,
+                    via: Via::Stub,
+                    foreign: vec![],
+                    two: None,
+                    other: None,
+                    plain_first: None,
+                    root_with_dir: i % 2 == 1,
+                },
+                section,
+            );
+        }
     }
     // seeded sampling over several locations
     let kind = *rng.pick(&[LoadKind::Use, LoadKind::Forward, LoadKind::Import, LoadKind::Import, LoadKind::LoadCss]);
@@ -1041,7 +1089,7 @@ impl Prop for C04 {
     fn runs(&self, tier: Tier) -> u64 {
         match tier {
             Tier::Quick => SINGLE + PLAIN + 40_000,
-            Tier::Thorough => SINGLE + PLAIN + TWO_LOC_USE + 2_000_000,
+            Tier::Thorough => SINGLE + PLAIN + TWO_LOC_USE + THREE_LOC_USE + TWO_LOC_IMP + 1_000_000,
         }
     }
     fn run(&self, seed: u64, index: u64, tier: Tier, stats: &mut Stats) -> Vec<Violation> {
@@ -1051,7 +1099,9 @@ impl Prop for C04 {
         stats.inc(&format!("stratum:{section}/{}", case.kind.letter()));
         stats.inc("judged");
         let (j, o) = judge(&case, stats);
-        if index % 40 == 7 {
+        // the big exhaustive sections of the thorough tier stay off the real disk (the sampled section covers that)
+        let big_exhaustive = section.ends_with("_exhaustive") && section != "single_location_exhaustive";
+        if index % 40 == 7 && !big_exhaustive {
             if let Some(o) = &o {
                 let (fs, _) = case.build();
                 let real = crate::xval::real_result(&fs, &case.bases(), "w/root.scss", "root.scss", Fmt::default(), &format!("c04-{index}"));
@@ -1063,7 +1113,7 @@ impl Prop for C04 {
             }
         }
         let mut extra_violations = vec![];
-        if index % 6 == 1 && case.plain.is_none() {
+        if index % 6 == 1 && case.plain.is_none() && !big_exhaustive {
             // the same layout through the real FsLoader, with directory names whose
             // sort order differs from the search order
             let mut c2 = case.clone();
@@ -1160,7 +1210,7 @@ impl Prop for C04 {
         crate::core::world_a_extra(stats)
     }
     fn rule(&self) -> String {
-        format!("Runs 0..{SINGLE} enumerate exhaustively every subset of the candidate files in the importer's directory (2^6 for @use, 2^6 for @forward, 2^10 for @import) x importer at the root / in a sub-directory x url `u` / `s/u`; the next {PLAIN} runs enumerate the plain-CSS @import forms with and without a matching file; (thorough only) the next {TWO_LOC_USE} enumerate every subset pair over importer directory x first load path for @use; the remaining runs sample subsets over importer directory, root directory, up to two load paths and decoy directories from the seed. Each case is compiled by the real library through SimLoader; the file whose marker appears must be the winner under at least one admissible reading of the rule (location-major / candidate-major, pairwise / grouped import-only order, root directory counted as load path or not). Non-trivial = every run (each has at least one lookup); distinct = distinct (layout, load statement, result) configurations. Every 6th layout is also materialised on the real file system under directory names whose sort order differs from the search order and compiled through the real FsLoader, and judged by the same oracle (loader=fs); every 40th run the real and the simulated result must also be equal (probe stub_validated_against_real).")
+        format!("Runs 0..{SINGLE} enumerate exhaustively every subset of the candidate files in the importer's directory (2^6 for @use, 2^6 for @forward, 2^10 for @import) x importer at the root / in a sub-directory x url `u` / `s/u`; the next {PLAIN} runs enumerate the plain-CSS @import forms with and without a matching file; (thorough only) the next {TWO_LOC_USE} enumerate every subset pair over importer directory x first load path for @use, the next {THREE_LOC_USE} every subset triple over importer directory x two load paths for @use (2^18 x root/sub-directory importer), the next {TWO_LOC_IMP} every subset pair over importer directory x first load path for @import (2^20 x 2); the remaining runs sample subsets over importer directory, root directory, up to two load paths and decoy directories from the seed. Each case is compiled by the real library through SimLoader; the file whose marker appears must be the winner under at least one admissible reading of the rule (location-major / candidate-major, pairwise / grouped import-only order, root directory counted as load path or not). Non-trivial = every run (each has at least one lookup); distinct = distinct (layout, load statement, result) configurations. Every 6th layout is also materialised on the real file system under directory names whose sort order differs from the search order and compiled through the real FsLoader, and judged by the same oracle (loader=fs); every 40th run the real and the simulated result must also be equal (probe stub_validated_against_real).")
     }
     fn assumptions(&self) -> Vec<String> {
         vec![
